@@ -52,6 +52,10 @@ Whys(e) ==
     [] e.op = "globals" ->
          <<IF e.maxTrials = 200 THEN "ok" ELSE "P:C16:retry-budget-default-is-not-200",
            IF IsOneBillionth(e.maxFailRate) THEN "ok" ELSE "P:C16:tolerated-failure-probability-default-is-not-1e-9">>
+    [] e.op = "budget" ->   \* all-attempts-fail stream (okAt = 0), or the okAt-th attempt is the first to succeed
+         <<IF e.okAt = 0 /\ ~(e.kind = "err" /\ e.draws = 200 * e.len) THEN "P:C16:retry-budget-default-is-not-200-attempts" ELSE "ok",
+           IF e.okAt \in 1..200 /\ ~(e.kind = "ok" /\ e.draws = e.okAt * e.len) THEN "P:C16:retry-budget-default-is-not-200-attempts" ELSE "ok",
+           IF e.okAt > 200 /\ e.kind # "err" THEN "P:C16:retry-budget-default-is-not-200-attempts" ELSE "ok">>
     [] e.op = "preset" ->
          LET want == PresetValues(e.name)
              got == {e.vals[i].v : i \in DOMAIN e.vals}
